@@ -5,9 +5,12 @@
    asserted equations, closed under reflexivity, symmetry, transitivity and node congruence under
    binders; alpha-equivalence is built into canonical terms) — so every pair it derives really is
    implied, and an implementation that answers "not equal" on such a pair violates C02, with the
-   closure's run as a kernel-grade reason.  NOT proved: completeness of the e-graph algorithm
-   itself (there is no proof that rebuild reaches a congruence-closed state); nothing is concluded
-   from pairs the bounded closure does not derive. *)
+   closure's run as a kernel-grade reason.
+   PROVED at the end of this file (EGraph/Complete*.v): the MODEL is complete for `Deriv` — for every history over
+   terms satisfying the static premise `term_static_user`, derivably equal handle terms compare equal
+   (`C02_completeness`), hence `eg_eq` on handles decides exactly `Deriv` (`C02_eq_iff_deriv`), the answers do not
+   depend on order / orientation / repetition of the asserted equations (`C02_order_independence`) and are
+   equivariant under renaming of the user slots (`C02_equivariance`). *)
 From SE Require Import Sem.Closure Sem.ClosureFacts Sem.EgMachine.
 From SE Require Import EGraph.Model EGraph.ModelMachine EGraph.PendingFacts EGraph.UnionFindFacts EGraph.AddCoversFacts EGraph.MonotoneFacts.
 
@@ -101,7 +104,7 @@ Theorem C02_congruence_immediately_after_union_reachable : forall terms ops hs s
 Proof. exact union_congruence_reachable. Qed.
 Print Assumptions C02_congruence_immediately_after_union_reachable.
 
-(* the statement that is NOT proved: the model-level completeness of the e-graph *)
+(* the informal shape of the completeness statement; its precise form for the model is `C02_completeness` below *)
 Definition C02_full : Prop :=
   forall (eq_reported : equations -> cterm -> cterm -> bool) E s t,
     Deriv E 0 s t -> eq_reported E s t = true.
@@ -135,3 +138,65 @@ Print Assumptions C02_congruence_immediately_after_union_for_all_histories.
 Theorem C02_static_premise_is_decidable : forall t, term_staticb t = true <-> term_static t.
 Proof. exact term_staticb_iff. Qed.
 Print Assumptions C02_static_premise_is_decidable.
+
+(* ------------------------------------------------------------------ *)
+(* COMPLETENESS of the model (EGraph/Complete.v): the converse of C01's `equality_sound_all`.  For EVERY history of
+   insertions and unions over terms satisfying the one static, decidable premise `term_static_user` (arity-correct
+   children, pairwise distinct binder names per node, user slot names of residue 0 or 2 mod 4): if the canonical terms of
+   two handles are equal in the congruence generated by the asserted equations, `eg_eq` answers true.  The premise is
+   needed: `complete_needs_user_names` (EGraph/CompleteCheck.v). *)
+From SE Require Import EGraph.SoundFacts EGraph.Complete EGraph.CompleteEquiv EGraph.CompleteCheck.
+
+Theorem C02_completeness : forall terms ops hs s i j a b ti tj, List.Forall term_static_user terms ->
+  run_ops terms ops [] empty_egraph = Ok (hs, s) -> nth_opt hs i = Some a -> nth_opt hs j = Some b ->
+  nth_opt (handle_cterms terms ops) i = Some ti -> nth_opt (handle_cterms terms ops) j = Some tj ->
+  Deriv (asserted terms ops) 0 ti tj -> eg_eq s a b = Ok true.
+Proof. exact equality_complete_all. Qed.
+Print Assumptions C02_completeness.
+
+Theorem C02_eq_iff_deriv : forall terms ops hs s i j a b ti tj, List.Forall term_static_user terms ->
+  run_ops terms ops [] empty_egraph = Ok (hs, s) -> nth_opt hs i = Some a -> nth_opt hs j = Some b ->
+  nth_opt (handle_cterms terms ops) i = Some ti -> nth_opt (handle_cterms terms ops) j = Some tj ->
+  (eg_eq s a b = Ok true <-> Deriv (asserted terms ops) 0 ti tj).
+Proof. exact eq_iff_deriv. Qed.
+Print Assumptions C02_eq_iff_deriv.
+
+Theorem C02_order_independence : forall terms1 ops1 hs1 s1 terms2 ops2 hs2 s2 i j i' j' a b a' b' ti tj,
+  List.Forall term_static_user terms1 -> List.Forall term_static_user terms2 ->
+  run_ops terms1 ops1 [] empty_egraph = Ok (hs1, s1) -> run_ops terms2 ops2 [] empty_egraph = Ok (hs2, s2) ->
+  (forall l r, List.In (l, r) (asserted terms1 ops1) -> List.In (l, r) (asserted terms2 ops2) \/ List.In (r, l) (asserted terms2 ops2)) ->
+  (forall l r, List.In (l, r) (asserted terms2 ops2) -> List.In (l, r) (asserted terms1 ops1) \/ List.In (r, l) (asserted terms1 ops1)) ->
+  nth_opt hs1 i = Some a -> nth_opt hs1 j = Some b ->
+  nth_opt (handle_cterms terms1 ops1) i = Some ti -> nth_opt (handle_cterms terms1 ops1) j = Some tj ->
+  nth_opt hs2 i' = Some a' -> nth_opt hs2 j' = Some b' ->
+  nth_opt (handle_cterms terms2 ops2) i' = Some ti -> nth_opt (handle_cterms terms2 ops2) j' = Some tj ->
+  eg_eq s1 a b = eg_eq s2 a' b'.
+Proof. exact order_independence. Qed.
+Print Assumptions C02_order_independence.
+
+(* renaming the user slots of all inputs (rren sg: every slot occurrence, binders included) by a renaming that is
+   injective on the non-reserved names: positive answers are preserved; with a left inverse, all answers *)
+Theorem C02_equivariance : forall sg terms ops hs s hs' s' i j a b a' b', nonB_ren sg -> List.Forall term_static_user terms ->
+  run_ops terms ops [] empty_egraph = Ok (hs, s) -> run_ops (List.map (rren sg) terms) ops [] empty_egraph = Ok (hs', s') ->
+  nth_opt hs i = Some a -> nth_opt hs j = Some b -> nth_opt hs' i = Some a' -> nth_opt hs' j = Some b' ->
+  eg_eq s a b = Ok true -> eg_eq s' a' b' = Ok true.
+Proof. exact equivariance_all. Qed.
+Print Assumptions C02_equivariance.
+
+Theorem C02_equivariance_iff : forall sg tau terms ops hs s hs' s' i j a b a' b', nonB_ren sg -> nonB_ren tau ->
+  (forall x, tau (sg x) = x) -> List.Forall term_static_user terms ->
+  run_ops terms ops [] empty_egraph = Ok (hs, s) -> run_ops (List.map (rren sg) terms) ops [] empty_egraph = Ok (hs', s') ->
+  nth_opt hs i = Some a -> nth_opt hs j = Some b -> nth_opt hs' i = Some a' -> nth_opt hs' j = Some b' ->
+  eg_eq s a b = eg_eq s' a' b'.
+Proof. exact equivariance_iff_all. Qed.
+Print Assumptions C02_equivariance_iff.
+
+Example C02_completeness_needs_the_static_premise :
+  List.map term_static_userb ceT = [true; false] /\
+  List.map term_staticb ceT = [true; true] /\
+  (exists t, handle_cterms ceT ceO = [t; t]) /\
+  match run_ops ceT ceO [] empty_egraph with
+  | Ok ([a; b], s) => eg_eq s a b
+  | _ => Err OutOfBounds
+  end = Ok false.
+Proof. exact complete_needs_user_names. Qed.
